@@ -158,6 +158,7 @@ def run_task(prog, tid, params, tier):
     f_write = fn(prog, 'ResourceRecord', 'write_to')
     f_parse = fn(prog, 'ResourceRecord', 'parse')
     f_len = fn(prog, 'ResourceRecord', 'len')
+    f_tc = [f for t, f in prog.methods[('RData', 'type_code')] if t is None][0]
     agg = {'paths': 0, 'queries': 0, 'solver_s': 0.0, 'outcomes': {}, 'functions': set(), 'covers_witnessed': 0,
            'shapes': len(shapes)}
     for si, shape in enumerate(shapes):
@@ -208,6 +209,18 @@ def run_task(prog, tid, params, tier):
                 return viol('parse: the RFC encoding is rejected')
             if res.ctx.check(pos.z() != len(expected)):
                 return viol('cursor: parsing does not end at the end of the record')
+            # the type reported for the parsed record is the one its code denotes (C18; NULL / unknown codes included)
+            tc = I.call_function(f_tc, [I.new_ref(p.f[0].f[3], 'rd')], {})
+            if tname == 'NULL':
+                code_sc = rr.f[3].f[0]
+                want_null = res.ctx.check(code_sc.z() == 10) and not res.ctx.check(code_sc.z() != 10)
+                bad = (tc.var != 'NULL') if want_null else (tc.var not in ('NULL', 'Unknown'))
+                if tc.var == 'Unknown' and res.ctx.check(tc.f[0].z() != code_sc.z()):
+                    bad = True
+            else:
+                bad = tc.var != tname
+            if bad:
+                return viol('type_code: parsed record reports type %s' % tc.var)
             eq = deep_eq(I, p.f[0], rr) if not shape.get('skip_eq') else z3.BoolVal(True)
             if res.ctx.check(z3.Not(eq)):
                 return viol('fields: parsed record differs from the original')
